@@ -96,8 +96,8 @@ def run(ck):
     ck.extra["generated_fallbacks"] = meta.get("fallback", {})
 
     rng = ck.rng
-    rb = lambda n: bytes(rng.getrandbits(8) for _ in range(n))  # noqa: E731
-    reps = ck.budget(1, 12)
+    rb = rng.randbytes
+    reps = ck.budget(4, 60)
     B = Batch(drv)
     LE, BE = Endianness.LITTLE, Endianness.BIG
 
@@ -106,7 +106,7 @@ def run(ck):
         o = c.decryptor() if dec else c.encryptor()
         return o.update(data) + o.finalize()
 
-    sampled = [255, 256, 257, 1000, 4095, 4096] + [rng.randrange(81, 4097) for _ in range(ck.budget(3, 40))]
+    sampled = [255, 256, 257, 1000, 4095, 4096] + [rng.randrange(81, 4097) for _ in range(ck.budget(4, 60))]
     lens_all = list(range(0, 81)) + sampled
 
     # =============================================================== tests of the reference (not theorems)
@@ -154,7 +154,7 @@ def run(ck):
         B.corr(s, ("kat", line), line, want)
     hnames = ("sha1", "sha256", "sha384", "sha512")
     chash = {"sha1": c_hashes.SHA1, "sha256": c_hashes.SHA256, "sha384": c_hashes.SHA384, "sha512": c_hashes.SHA512}
-    for _ in range(reps):
+    for _ in range(ck.budget(1, 20)):
         for kl in (16, 24, 32):
             k = rb(kl)
             for _i in range(4):
@@ -241,6 +241,7 @@ def run(ck):
         return {"none": None, "empty": b"", "zeros": bytes(16), "rand": r}[mode]
 
     def cbc_family(tag, enc, dec, keylens, refop):
+        fn = {"cbc": "aes_cbc", "sm4": "sm4_cbc"}[tag]
         for kl in keylens:
             for n in lens_all:
                 for _ in range(reps if n <= 80 else 1):
@@ -257,19 +258,19 @@ def run(ck):
                     B.corr(s, inp, f"w_{tag}_enc {hexs(k)} {hexs(m)} {opt(eiv)}", canon(re_))
                     padded = m + bytes(-len(m) % 16)
                     eff_e = eiv or bytes(16)
-                    if not s.expect(re_[0] == "ok" and len(re_[1]) == len(padded), inp, f"{tag}_cbc_encrypt refuses a legal input or returns the wrong length", re_):
+                    if not s.expect(re_[0] == "ok" and len(re_[1]) == len(padded), inp, f"{fn}_encrypt refuses a legal input or returns the wrong length", re_):
                         continue
                     B.ref(s, inp, f"{refop}_enc {hexs(k)} {hexs(eff_e)} {hexs(padded)}", canon(re_),
-                          f"{tag}_cbc_encrypt differs from CBC of the zero-padded message under the (default zero) IV (Lean reference)")
+                          f"{fn}_encrypt differs from CBC of the zero-padded message under the given / default all-zero IV (Lean reference)")
                     rd = pyres(dec, k, re_[1], div)
                     B.corr(s, inp + ("dec",), f"w_{tag}_dec {hexs(k)} {hexs(re_[1])} {opt(div)}", canon(rd))
                     eff_d = div or bytes(16)
                     if eff_e == eff_d:
-                        s.expect(rd == ("ok", padded), inp, f"{tag}_cbc_decrypt(key, {tag}_cbc_encrypt(key, m, iv={em}), iv={dm}) is not the zero-padded message",
+                        s.expect(rd == ("ok", padded), inp, f"{fn}_decrypt(key, {fn}_encrypt(key, m, iv), iv) is not the zero-padded message (IV given or defaulted on either side)",
                                  rd, padded)
                     else:
                         s.expect(rd[0] == "ok" and rd[1][16:] == padded[16:] and (len(padded) == 0 or rd[1][:16] != padded[:16]), inp,
-                                 f"{tag}_cbc_decrypt with a different IV must differ in the first block only", rd)
+                                 f"{fn}_decrypt under a different IV must differ from the padded message in the first block only", rd)
 
     cbc_family("cbc", S.aes_cbc_encrypt, S.aes_cbc_decrypt, (16, 24, 32), "cbc")
     cbc_family("sm4", S.sm4_cbc_encrypt, S.sm4_cbc_decrypt, (16,), "sm4cbc")
@@ -311,7 +312,7 @@ def run(ck):
     B.flush()
 
     # CTR keystream positioning with Counter: encrypting in two pieces with the counter advanced by the block count of the first
-    for _ in range(ck.budget(60, 600)):
+    for _ in range(ck.budget(100, 3000)):
         k = rb(rng.choice([16, 24, 32]))
         start = rng.choice([0, 1, M32 - 2, M32 - 1, rng.getrandbits(32)])
         nb1, nb2 = rng.randrange(0, 5), rng.randrange(1, 5)
@@ -358,7 +359,7 @@ def run(ck):
     for kl in (16, 24, 32):
         for nl in range(7, 14):
             for tl in (4, 6, 8, 10, 12, 14, 16):
-                for _ in range(ck.budget(2, 12)):
+                for _ in range(ck.budget(2, 40)):
                     k, n = rb(kl), rb(nl)
                     m = rb(rng.choice([0, 1, 15, 16, 17, 31, 32, 33, 80, rng.randrange(0, 81), rng.choice(sampled)]))
                     a = rb(rng.choice([0, 1, 13, 14, 15, 29, 30, 31, 40, rng.randrange(0, 41)]))
@@ -380,7 +381,7 @@ def run(ck):
     # key wrap
     for kl in (16, 24, 32):
         for n in range(16, 65, 8):
-            for _ in range(ck.budget(2, 20)):
+            for _ in range(ck.budget(3, 60)):
                 k, p = rb(kl), rb(n)
                 inp = ("keywrap", k, p)
                 rw = pyres(S.aes_key_wrap, k, p)
@@ -570,7 +571,7 @@ def run(ck):
                 B.corr(s, inp + ("validate", sig), f"w_cmac_validate {hexs(k)} {hexs(m)} {hexs(sig)}", canon(rv))
                 s.expect(rv == ("ok", sig == r[1]), inp + ("validate", sig), "cmac_validate answer wrong", rv, sig == r[1])
     for L in [0, 1, 16, 31, 32, 33, 64, 65, 100, 255, 256, 1000, 255 * 32, 255 * 32 + 1, 10000]:
-        for _ in range(ck.budget(3, 30)):
+        for _ in range(ck.budget(3, 60)):
             salt, ikm, info = rb(rng.choice([0, 1, 16, 32, 63, 64, 65, 200])), rb(rng.choice([0, 1, 16, 22, 32, 80])), rb(rng.choice([0, 1, 10, 80]))
             r = pyres(hkdf, salt, ikm, info, L)
             inp = ("hkdf", salt, ikm, info, L)
@@ -620,7 +621,7 @@ def run(ck):
                 if r[0] == "ok" and n % 9 == 0:
                     rl = pyres(lambda: from_crc_algorithm(alg.label).calculate(d))
                     s.expect(rl == r, inp + ("label",), "from_crc_algorithm(label) differs from from_crc_algorithm(enum)", rl, r)
-                    cand = r[1] if rng.random() < 0.5 else r[1] ^ (1 << rng.randrange(16))
+                    cand = r[1] if rng.random() < 0.4 else r[1] ^ (1 << rng.randrange(16 if name == "CRC16_XMODEM" else 32))
                     rv = pyres(lambda: from_crc_algorithm(alg).verify(d, cand))
                     B.corr(s, inp + ("verify", cand), f"w_crc_verify {name} {hexs(d)} {cand}", canon(rv))
                     s.expect(rv == ("ok", cand == r[1]), inp + ("verify", cand), "Crc.verify answer wrong", rv)
@@ -638,7 +639,7 @@ def run(ck):
         return raw_cipher(algorithms.AES(k), modes.ECB(), 0, d)
     ks_docs = {"hmac": bytes(16), "enc_image": bytes([1] + [0] * 15 + [2] + [0] * 15), "sbkek": bytes([3] + [0] * 15 + [4] + [0] * 15)}
     ks_fn = {"hmac": KeyStore.derive_hmac_key, "enc_image": KeyStore.derive_enc_image_key, "sbkek": KeyStore.derive_sb_kek_key}
-    for kl in [32] * ck.budget(8, 100) + [0, 16, 24, 31, 33, 64]:
+    for kl in [32] * ck.budget(10, 400) + [0, 16, 24, 31, 33, 64]:
         k = rb(kl)
         for nm, fn in ks_fn.items():
             r = pyres(fn, k)
@@ -654,7 +655,7 @@ def run(ck):
             s.note(inp, nontrivial=kl == 32 and il == 16, cls="keystore " + r[0])
             B.corr(s, inp, f"w_ks_otfad {hexs(k)} {hexs(i)}", canon(r))
             s.expect(r == (("ok", ecb(k, i)) if kl == 32 and il == 16 else ("E:spsdk",)), inp, "KeyStore.derive_otfad_kek_key is not AES-256-ECB of the OTFAD input", r)
-    consts = [0, 1, 0x12345678, M32 - 1, M32, (1 << 96) - 1, 1 << 96, -1] + [rng.getrandbits(rng.choice([8, 32, 64, 96])) for _ in range(ck.budget(4, 40))]
+    consts = [0, 1, 0x12345678, M32 - 1, M32, (1 << 96) - 1, 1 << 96, -1] + [rng.getrandbits(rng.choice([8, 32, 64, 96])) for _ in range(ck.budget(4, 60))]
     modes_ = {"kdk": sb31.KeyDerivationMode.KDK, "blk": sb31.KeyDerivationMode.BLK}
     for dc in consts:
         for rights in (-1, 0, 1, 2, 3, 4):
@@ -672,7 +673,7 @@ def run(ck):
                             s.expect(r == ("ok", want), inp, "SB3.1 derivation data is not label(12 LE) | 8x00 | rights<<6 | mode | 00 | key option | length(4 BE) | i(4 BE)", r, want)
                         else:
                             s.expect(r[0] != "ok", inp, "SB3.1 derivation data accepts illegal parameters", r)
-    for _ in range(ck.budget(20, 300)):
+    for _ in range(ck.budget(30, 2000)):
         key = rb(rng.choice([16, 32, 32, 24]))
         dc, rights, kl = rng.choice(consts[:6] + consts[8:]), rng.randrange(4), rng.choice([128, 256])
         for mname, fn in (("kdk", sb31.derive_kdk), ("blk", sb31.derive_block_key)):
@@ -707,7 +708,7 @@ def run(ck):
     cvals = [None, 0, 1, 16, M32 - 1, M32, -1]
     incs = [0, 1, 16, M32, None]
     nwrap = 0
-    for rep in range(ck.budget(2, 30)):
+    for rep in range(ck.budget(3, 200)):
         for st in starts + [rng.getrandbits(32)]:
             for cv in cvals + [rng.getrandbits(rng.choice([8, 31, 33]))]:
                 for order in (LE, BE):
